@@ -629,8 +629,8 @@ def _tokenize(readline: Callable[[], str]) -> Iterator[TokenInfo]:
                 raise TokenError("EOF in multi-line statement", (state.lnum, 0))
             state.continued = False
 
-        pos = state.pos
         while state.pos < state.max:
+            pos = state.pos
             yield from handle_end_progs(state)
             if token := next_psuedo_matches(state):
                 yield token
@@ -643,7 +643,6 @@ def _tokenize(readline: Callable[[], str]) -> Iterator[TokenInfo]:
                     state.line,
                 )
                 state.pos += 1
-                pos = state.pos
 
     yield from next_end_tokens(state)
 
